@@ -31,15 +31,78 @@ class Consume:
         self.line = call.get("l", 0)
 
 
+def open_coded_array_loops(node):
+    """The body of CdnsDecoder::read_array written out by hand:
+
+        bool indef; uint64_t length = dec.read_array_start(indef);  ...
+        while (length > 0 || indef) { if (indef && dec.peek_type() == BREAK) { dec.read_break(); break; }  BODY;  length--; }
+
+    -> [(while node, start call, [nodes of the loop's own bookkeeping], synthetic element callback {k: Lambda, body: BODY})]"""
+    found = []
+    starts = {}
+    for n in ir.walk(node):
+        if n.get("k") == "Decl":
+            for v in n.get("vars", []):
+                init = unwrap(v.get("init")) if v.get("init") is not None else None
+                if isinstance(init, dict) and init.get("k") == "MCall" and decoder_call(init) == "read_array_start" and init.get("args") and "id" in v:
+                    starts[v["id"]] = (init, ir.path(init["args"][0]))
+    if not starts:
+        return found
+    for w in ir.walk(node):
+        if w.get("k") != "While":
+            continue
+        c = unwrap(w.get("cond"))
+        if not (isinstance(c, dict) and c.get("k") == "Bin" and c.get("op") == "||"):
+            continue
+        L = I = None
+        for side in (c["lhs"], c["rhs"]):
+            u = unwrap(side)
+            if isinstance(u, dict) and u.get("k") == "Bin" and u.get("op") in (">", "!=") and const_value(u.get("rhs")) == 0 and \
+                    unwrap(u["lhs"]).get("k") == "Ref" and unwrap(u["lhs"]).get("id") in starts:
+                L = unwrap(u["lhs"]).get("id")
+            elif isinstance(u, dict) and u.get("k") == "Ref":
+                I = ir.path(u)
+        if L is None or I is None or starts[L][1] != I:
+            continue
+        body = ir.stmts(w.get("body"))
+        if len(body) < 3:
+            continue
+        first, last = unwrap(body[0]), unwrap(body[-1])
+        ok_first = isinstance(first, dict) and first.get("k") == "If" and first.get("else") is None and \
+            any(decoder_call(x) == "peek_type" for x in ir.walk(first.get("cond")) if x.get("k") == "MCall") and \
+            any(ir.path(x) == I for x in ir.walk(first.get("cond")) if x.get("k") == "Ref") and \
+            [decoder_call(x) for x in ir.walk(first.get("then")) if x.get("k") == "MCall"] == ["read_break"] and \
+            any(x.get("k") == "Break" for x in ir.walk(first.get("then")))
+        ok_last = isinstance(last, dict) and ((last.get("k") == "Un" and last.get("op") in ("post--", "pre--") and unwrap(last.get("e")).get("id") == L) or
+                                              (last.get("k") == "Bin" and last.get("op") == "-=" and const_value(last.get("rhs")) == 1 and unwrap(last.get("lhs")).get("id") == L))
+        if not (ok_first and ok_last):
+            continue
+        own = [x for x in ir.walk(first)] + [starts[L][0]]
+        lam = {"k": "Lambda", "l": w.get("l"), "params": [], "body": {"k": "Block", "l": w.get("l"), "s": body[1:-1]}, "synthetic": True}
+        found.append((w, starts[L][0], own, lam))
+    return found
+
+
 def consumes_in(node, facts, skip_lambdas=True):
     """Item-consuming calls inside node (not descending into lambda bodies)."""
     out = []
+    loops = {}
+    skip = set()
+    for w, start, own, lam in (open_coded_array_loops(node) if isinstance(node, dict) else []):
+        loops[id(w)] = lam
+        skip |= set(id(x) for x in own)
 
     def rec(n):
         if not isinstance(n, dict):
             return
         k = n.get("k")
         if k == "Lambda" and skip_lambdas:
+            return
+        if id(n) in loops:
+            # the element callback is the rest of the loop body: it is analysed like the lambda handed to read_array()
+            out.append(Consume("ARRAY", n, loops[id(n)]))
+            return
+        if id(n) in skip:
             return
         if k == "MCall":
             dn = decoder_call(n)
